@@ -207,3 +207,147 @@ def check_prv_emit(ctx, rule):
                   (flags or "none", "null" if val[0] == "null" else val[1], "same as the last record" if dup else "a new value", got,
                    "an error" if want_err else ("no record" if not want_line else "the record 2:0:1:1:4:1000:77:%d" % out_val)))
     ctx.need(n >= 40, "%s: %d emit cases" % (rule, n))
+
+
+def check_mux_setup(ctx, rule):
+    """mux_init / mux_set_input: the output tolerates re-writes while dirty and repeated values (a select and an
+    input may change in one event; a newly selected input may hold the value already shown), the select callback
+    is registered enabled and the input callbacks disabled (an input feeds the output only while selected),
+    `selected` starts at 'none'."""
+    prog = ctx.prog
+    eff = effects.Effects(prog)
+    MX = "src/emu/mux.c"
+    mi, msi = prog.fn("mux_init", MX), prog.fn("mux_set_input", MX)
+    E = prog.enum_val
+    props, cbs = [], []
+
+    def s_prop(ex_, st, a, f, e):
+        props.append((a[0], a[1], a[2]))
+        return [(TOP, {})]
+
+    def s_addcb(ex_, st, a, f, e):
+        cbs.append(tuple(a))
+        return [(PTR("CB%d" % len(cbs)), {})]
+    sums = {"chan_prop_set": s_prop, "bay_add_cb": s_addcb, "chan_get_type": lambda ex_, st, a, f, e: [(INT(E("CHAN_SINGLE")), {})],
+            "bay_find": lambda ex_, st, a, f, e: [(PTR("BCH"), {})],
+            "calloc": lambda ex_, st, a, f, e: [(PTR("INPUTS", (0,)), {})],
+            "value_null": lambda ex_, st, a, f, e: [(("val", "null"), {})]}
+
+    def s_memset(ex_, st, a, f, e):
+        upd = {(a[0][1], ("zeroinit",)): INT(1)} if a[0][0] == "ptr" and a[1] == INT(0) else {}
+        for k in list(st.store):
+            if a[0][0] == "ptr" and k[0] == a[0][1]:
+                upd[k] = INT(0)
+        return [(TOP, upd)]
+    sums["memset"] = s_memset
+    sums["__builtin___memset_chk"] = s_memset
+    ex = absint.Explorer(prog, effects=eff, summaries=sums)
+    outs = [o for o in ex.run(mi, [PTR("MUX"), PTR("BAY"), PTR("SEL"), PTR("OUT"), ("fn", "selfn"), INT(3)], {})
+            if o.kind == "ret" and o.ret == INT(0)]
+    want_props = {(PTR("OUT"), INT(E("CHAN_DIRTY_WRITE")), INT(1)), (PTR("OUT"), INT(E("CHAN_ALLOW_DUP")), INT(1))}
+    ctx.check(bool(outs) and want_props <= set(props), rule, "mux_init:output-properties", mi.loc(),
+              "mux_init sets the channel properties %s on its output; it needs DIRTY_WRITE and ALLOW_DUP (select and input "
+              "may be written in the same event; a newly selected input may repeat the value shown)" %
+              [tuple(str(x) for x in p) for p in props])
+    sel_cbs = [c for c in cbs if len(c) >= 6 and c[3] == ("fn", "cb_select")]
+    ctx.check(bool(outs) and len(sel_cbs) == 1 and sel_cbs[0][1] == INT(E("BAY_CB_DIRTY")) and sel_cbs[0][2] == PTR("SEL") and
+              sel_cbs[0][4] == PTR("MUX") and sel_cbs[0][5] == INT(1), rule, "mux_init:select-callback-enabled", mi.loc(),
+              "mux_init registers %s; expected cb_select on the select channel, dirty phase, enabled" %
+              [tuple(str(x) for x in c) for c in cbs])
+    ctx.check(bool(outs) and all(o.store.get(("MUX", F("mux", "ninputs"))) == INT(3) and
+                                 o.store.get(("MUX", F("mux", "select"))) == PTR("SEL") and
+                                 o.store.get(("MUX", F("mux", "output"))) == PTR("OUT") and
+                                 o.store.get(("MUX", F("mux", "select_func"))) == ("fn", "selfn") for o in outs),
+              rule, "mux_init:fields", mi.loc(), "mux_init does not record select / output / select function / number of inputs")
+    del cbs[:]
+    store = {("MUX", F("mux", "output")): PTR("OUT"), ("MUX", F("mux", "inputs")): PTR("INPUTS", (0,)),
+             ("MUX", F("mux", "bay")): PTR("BAY"), ("INPUTS", (1,) + F("mux_input", "chan")): NULL}
+    outs = [o for o in ex.run(msi, [PTR("MUX"), INT(1), PTR("INCH")], store) if o.kind == "ret" and o.ret == INT(0)]
+    in_cbs = [c for c in cbs if len(c) >= 6 and c[3] == ("fn", "cb_input")]
+    good = bool(outs) and len(in_cbs) == 1 and in_cbs[0][1] == INT(E("BAY_CB_DIRTY")) and in_cbs[0][2] == PTR("INCH") and \
+        in_cbs[0][5] == INT(0) and all(o.store.get(("INPUTS", (1,) + F("mux_input", "chan"))) == PTR("INCH") and
+                                       o.store.get(("INPUTS", (1,) + F("mux_input", "index"))) == INT(1) and
+                                       o.store.get(("INPUTS", (1,) + F("mux_input", "output"))) == PTR("OUT") for o in outs)
+    ctx.check(good, rule, "mux_set_input:callback-disabled-until-selected", msi.loc(),
+              "mux_set_input(1, ch) registers %s and stores (chan, index, output) = %s; expected cb_input on the input "
+              "channel, disabled until the input is selected, and the input bound to the mux output" %
+              ([tuple(str(x) for x in c) for c in cbs],
+               [(str(o.store.get(("INPUTS", (1,) + F("mux_input", "chan")))), str(o.store.get(("INPUTS", (1,) + F("mux_input", "index")))),
+                 str(o.store.get(("INPUTS", (1,) + F("mux_input", "output"))))) for o in outs]))
+    outs = [o for o in ex.run(msi, [PTR("MUX"), INT(1), PTR("OUT")], store) if o.kind == "ret"]
+    ctx.check(bool(outs) and all(o.ret != INT(0) for o in outs), rule, "mux_set_input:output-as-input-refused", msi.loc(),
+              "the output channel of a mux can be connected as one of its inputs")
+
+
+def check_bay(ctx, rule):
+    """The patch bay's callback lists: a callback added disabled is not called, one added (or later) enabled is
+    called with (channel, argument), a disabled one is removed; propagate_chan calls every callback of the phase
+    in list order and stops with a failure when one fails."""
+    prog = ctx.prog
+    eff = effects.Effects(prog)
+    BY = "src/emu/bay.c"
+    add, en, dis, prop = (prog.fn(n_, BY) for n_ in ("bay_add_cb", "bay_enable_cb", "bay_disable_cb", "propagate_chan"))
+    E = prog.enum_val
+    DIRTY = E("BAY_CB_DIRTY")
+    CBL = F("bay_chan", "cb") + (DIRTY,)
+    DBG = (("G", "src/common.c", "is_debug_enabled"), ())
+    ncb = [0]
+
+    def s_calloc(ex_, st, a, f, e):
+        ncb[0] += 1
+        nm = "NEWCB%d" % ncb[0]
+        return [(PTR(nm), {(nm, ("zeroinit",)): INT(1)})]
+    base = {DBG: INT(0), ("BC", F("bay_chan", "is_dirty")): INT(0), ("BC", CBL): NULL,
+            ("BC", F("bay_chan", "chan")): PTR("CH"), ("BC", F("bay_chan", "ncallbacks") + (DIRTY,)): INT(0)}
+    ex = absint.Explorer(prog, effects=eff, loop_bound=6, max_depth=4, inline=lambda n_, d: d.file == BY,
+                         summaries={"find_bay_chan": lambda ex_, st, a, f, e: [(PTR("BC"), {})], "calloc": s_calloc})
+
+    def called_after(store):
+        calls = []
+
+        def mk(name, ret):
+            def s_(ex_, st, a, f, e):
+                k = st.store.get(("NCALL", ()), INT(0))[1]
+                return [(INT(ret), {("NCALL", ()): INT(k + 1), ("CALL", (k,)): ("val", name) + tuple(a)})]
+            return s_
+        exp = absint.Explorer(prog, effects=eff, loop_bound=6,
+                              summaries={"cbA": mk("cbA", 0), "cbB": mk("cbB", 0), "cbFAIL": mk("cbFAIL", -1)})
+        outs = [o for o in exp.run(prop, [PTR("BC"), INT(DIRTY)], dict(store)) if o.kind == "ret"]
+        res = []
+        for o in outs:
+            k = o.store.get(("NCALL", ()), INT(0))[1]
+            res.append((o.ret, [o.store[("CALL", (i,))] for i in range(k)]))
+        return res
+    # add disabled: not called
+    o = [o for o in ex.run(add, [PTR("BAY"), INT(DIRTY), PTR("CH"), ("fn", "cbA"), PTR("ARGA"), INT(0)], dict(base))
+         if o.kind == "ret" and o.ret is not None and o.ret[0] == "ptr"]
+    ctx.need(len(o) == 1, "bay_add_cb(disabled) cannot be evaluated (%d outcomes)" % len(o))
+    res = called_after(o[0].store)
+    ctx.check(bool(res) and all(r == INT(0) and not c for r, c in res), rule, "bay:added-disabled-not-called", add.loc(),
+              "a callback registered disabled is called by the propagation: %s" % [[str(x) for x in c] for _, c in res])
+    cbA = o[0].ret
+    # enable it, add a second one enabled: both called, in order, with (chan, arg)
+    o2 = [x for x in ex.run(en, [cbA], o[0].store) if x.kind in ("ret", "exit")]
+    ctx.need(len(o2) == 1, "bay_enable_cb cannot be evaluated")
+    o3 = [x for x in ex.run(add, [PTR("BAY"), INT(DIRTY), PTR("CH"), ("fn", "cbB"), PTR("ARGB"), INT(1)], o2[0].store)
+          if x.kind == "ret" and x.ret is not None and x.ret[0] == "ptr"]
+    ctx.need(len(o3) == 1, "bay_add_cb(enabled) cannot be evaluated")
+    res = called_after(o3[0].store)
+    want = [("val", "cbA", PTR("CH"), PTR("ARGA")), ("val", "cbB", PTR("CH"), PTR("ARGB"))]
+    ctx.check(bool(res) and all(r == INT(0) and c == want for r, c in res), rule, "bay:enabled-called-in-order", prop.loc(),
+              "with callbacks A (enabled later) and B (added enabled) the propagation calls %s; expected A(chan, argA) then "
+              "B(chan, argB)" % [[tuple(str(y) for y in x) for x in c] for _, c in res])
+    # disable the first: only the second is called
+    o4 = [x for x in ex.run(dis, [cbA], o3[0].store) if x.kind in ("ret", "exit")]
+    ctx.need(len(o4) == 1, "bay_disable_cb cannot be evaluated")
+    res = called_after(o4[0].store)
+    ctx.check(bool(res) and all(r == INT(0) and c == want[1:] for r, c in res), rule, "bay:disabled-not-called", dis.loc(),
+              "after disabling callback A the propagation calls %s; expected only B" %
+              [[tuple(str(y) for y in x) for x in c] for _, c in res])
+    # a failing callback fails the propagation
+    o5 = [x for x in ex.run(add, [PTR("BAY"), INT(DIRTY), PTR("CH"), ("fn", "cbFAIL"), PTR("ARGF"), INT(1)], dict(base))
+          if x.kind == "ret" and x.ret is not None and x.ret[0] == "ptr"]
+    ctx.need(len(o5) == 1, "bay_add_cb cannot be evaluated")
+    res = called_after(o5[0].store)
+    ctx.check(bool(res) and all(r != INT(0) for r, c in res), rule, "bay:callback-failure-propagates", prop.loc(),
+              "a failing callback does not make the propagation fail")
